@@ -1,4 +1,5 @@
 import OtelVerif.Model.C19
+import OtelVerif.Model.C19Obs
 import OtelVerif.Model.C19Exp
 import OtelVerif.Props.C03
 import OtelVerif.Lemmas.C19Exp
@@ -574,6 +575,75 @@ theorem C19_profiles_step (p : Proc) (n : Nat) (o : ProcOutcome) (s : Signal) :
 
 example : let p := Proc.runX {} [.sig ⟨.logs, 5, .ok 3 false⟩, .prof 7 (.ok 9 false), .prof 2 .err, .sig ⟨.logs, 1, .skip⟩, .prof 4 .skip]
     p.incoming .logs = 6 ∧ p.outgoing .logs = 3 ∧ p.incoming .traces = 0 ∧ p.incoming .metrics = 0 := by decide
+
+/-! ## obsconsumer (service/internal/obsconsumer): consumed items per outcome, any number of static attributes -/
+
+namespace Obs
+
+theorem run_other (ops : List Op) (s : St) (i : Nat) : (run s ops i).other = (s i).other := by
+  induction ops generalizing s with
+  | nil => rfl
+  | cons op ops ih =>
+    simp only [run]; rw [ih]
+    by_cases hi : i = op.inst <;> cases he : op.err <;> simp [consume, hi, he]
+
+theorem run_success (ops : List Op) (s : St) (i : Nat) : (run s ops i).success = (s i).success + okItems i ops := by
+  induction ops generalizing s with
+  | nil => simp [run, okItems]
+  | cons op ops ih =>
+    simp only [run, okItems]; rw [ih]
+    by_cases hi : i = op.inst <;> cases he : op.err <;> simp [consume, hi, he, Eq.comm] <;> omega
+
+theorem run_failure (ops : List Op) (s : St) (i : Nat) : (run s ops i).failure = (s i).failure + errItems i ops := by
+  induction ops generalizing s with
+  | nil => simp [run, errItems]
+  | cons op ops ih =>
+    simp only [run, errItems]; rw [ih]
+    by_cases hi : i = op.inst <;> cases he : op.err <;> simp [consume, hi, he, Eq.comm] <;> omega
+
+end Obs
+
+open Obs in
+/-- **obsconsumer.** For every history of calls through any number of wrapper instances (any signal, any static attributes): the
+items the downstream consumer accepted are counted under outcome=success of that instance, the refused ones under outcome=failure,
+success + failure = items offered (counted at call entry), nothing appears under any other attribute set, other instances untouched. -/
+theorem C19_obsconsumer (ops : List Op) (i : Nat) :
+    (run (fun _ => {}) ops i).success = okItems i ops ∧ (run (fun _ => {}) ops i).failure = errItems i ops ∧
+    (run (fun _ => {}) ops i).other = 0 ∧
+    (run (fun _ => {}) ops i).success + (run (fun _ => {}) ops i).failure = okItems i ops + errItems i ops := by
+  have h1 := run_success ops (fun _ => {}) i
+  have h2 := run_failure ops (fun _ => {}) i
+  have h3 := run_other ops (fun _ => {}) i
+  simp only [] at h1 h2 h3
+  refine ⟨by simpa using h1, by simpa using h2, by simpa using h3, ?_⟩
+  simp at h1 h2; omega
+
+open Obs in
+/-- per call: which of the two moves follows the downstream result -/
+theorem C19_obsconsumer_step (s : St) (op : Op) :
+    (op.err = false → (consume s op op.inst).success = (s op.inst).success + op.n ∧ (consume s op op.inst).failure = (s op.inst).failure) ∧
+    (op.err = true → (consume s op op.inst).failure = (s op.inst).failure + op.n ∧ (consume s op op.inst).success = (s op.inst).success) ∧
+    (∀ j, j ≠ op.inst → consume s op j = s j) := by
+  refine ⟨fun h => by simp [consume, h], fun h => by simp [consume, h], fun j hj => by simp [consume, hj]⟩
+
+open Obs in
+/-- the oracle evaluated on the implementation's counters is sound, and the model passes it -/
+theorem C19_obs_check_sound (i : Nat) (ops : List Op) (c : Cnt) (h : check i ops c = true) :
+    c.success = okItems i ops ∧ c.failure = errItems i ops ∧ c.other = 0 ∧ c.success + c.failure = okItems i ops + errItems i ops := by
+  simp only [check, Bool.and_eq_true, beq_iff_eq] at h
+  obtain ⟨⟨h1, h2⟩, h3⟩ := h
+  exact ⟨h1, h2, h3, by omega⟩
+
+open Obs in
+theorem C19_obs_model_checks (ops : List Op) (i : Nat) : check i ops (run (fun _ => {}) ops i) = true := by
+  obtain ⟨h1, h2, h3, _⟩ := C19_obsconsumer ops i
+  simp [check, h1, h2, h3]
+
+open Obs in
+example : check 0 [⟨0, 3, false⟩, ⟨1, 9, true⟩, ⟨0, 2, true⟩] { success := 3, failure := 2 } = true := by decide
+open Obs in
+/-- everything counted as failed (the outcome attribute of the success set overwritten) is rejected -/
+example : check 0 [⟨0, 3, false⟩, ⟨0, 2, true⟩] { success := 0, failure := 5 } = false := by decide
 
 -- === exporter clause (added separately below) ===
 
